@@ -117,6 +117,32 @@ def check_problem(spec, counters, violations):
             j = next((j for j, (a, b) in enumerate(zip(t1, t2)) if a != b), min(len(t1), len(t2)))
             issues.append("knob write trace differs when only the DISABLED targets %s return other values (first difference at write %d: %s vs %s; outcomes %s / %s)" % (
                 dt, j, t1[j:j + 1], t2[j:j + 1], res, res2))
+    # (6) second phase: the user changes the DISABLED knobs by hand (inside their limits) between two calls;
+    #     the optimizer must leave those values alone (container and every later log row)
+    if spec.get("phase2") and dv and not issues and res == "ok":
+        if percall:
+            kw2 = {"disable_vary_name": ["k%d" % i for i in dv]}
+        else:
+            kw2 = {}
+        user = {}
+        for i in dv:
+            lim = spec["limits"][i]
+            lo, hi = (lim if lim is not None else (-1.0, 1.0))
+            user[i] = lo + (hi - lo) * spec["phase2_frac"][i]
+            dict.__setitem__(S.cont, names[i], user[i])          # the user's own write, not the optimizer's
+        S.cont.log.clear()
+        n_before = len(S.opt._log["penalty"])
+        try:
+            S.opt.step(spec["nsteps"], broyden=spec["broyden"], **kw2)
+        except Exception as exc:
+            counters["phase2_raised"] = counters.get("phase2_raised", 0) + 1
+        counters["phase2_runs"] = counters.get("phase2_runs", 0) + 1
+        V2 = np.atleast_2d(S.opt.log()["vary"])
+        for i in dv:
+            if S.cont[names[i]] != user[i]:
+                issues.append("disabled knob %d was set to %r by the user between two calls; the next step() changed it to %r" % (i, user[i], S.cont[names[i]]))
+            elif any(float(v) != user[i] for v in V2[n_before:, i]):
+                issues.append("disabled knob %d was set to %r by the user; later log rows record %s" % (i, user[i], [float(v) for v in V2[n_before:, i]]))
     for what in issues[:3]:
         violations.append(dict(wit, what="C10 " + what))
     return nj
@@ -136,6 +162,8 @@ def gen(rng):
         spec["dis_v"][0] = False
     if all(spec["dis_t"]):
         spec["dis_t"][0] = False
+    spec["phase2"] = rng.random() < 0.6
+    spec["phase2_frac"] = [rng.uniform(0.2, 0.8) for _ in range(spec["n"])]
     return spec
 
 
@@ -149,7 +177,13 @@ def run_shard(spec_):
         return {"evaluations": 1, "digests": [], "samples": [], "counters": counters, "violations": violations, "known": []}
     for p in range(spec_["problems"]):
         spec = gen(rng)
-        nj = check_problem(spec, counters, violations)
+        try:
+            nj = check_problem(spec, counters, violations)
+        except Exception as exc:
+            import traceback
+            violations.append({"what": "C10 a legal sequence of optimizer API calls raised %s: %s" % (type(exc).__name__, str(exc)[:200]),
+                               "spec": spec, "traceback": traceback.format_exc()[-1500:]})
+            nj = 0
         counters["problems"] = counters.get("problems", 0) + 1
         if nj >= 2:
             digests.add(digest(spec))
